@@ -420,6 +420,11 @@ func keepC08(sig string) bool { return strings.HasPrefix(sig, "fenced-path-reach
 // backend reported (C09: a walk advances only through directories).
 func keepC09(sig string) bool { return strings.HasPrefix(sig, "fenced-path-reached:Walk") }
 
+// keepC06: every request is answered, by a whole frame (C06).
+func keepC06(sig string) bool {
+	return strings.HasPrefix(sig, "request-never-answered") || strings.HasPrefix(sig, "reply-undecodable")
+}
+
 func schedReplay(keep func(string) bool) func(c schedCase) *fail {
 	return func(c schedCase) *fail {
 		f := runSchedCaseKeep(c, nil, keep)
@@ -433,6 +438,7 @@ func schedReplay(keep func(string) bool) func(c schedCase) *fail {
 func init() {
 	replayRegistrars = append(replayRegistrars, func() {
 		registerReplay("C07/scheduled", schedReplay(nil))
+		registerReplay("C06/scheduled", schedReplay(keepC06))
 		registerReplay("C08/scheduled", schedReplay(keepC08))
 		registerReplay("C09/scheduled", schedReplay(keepC09))
 	})
